@@ -258,6 +258,21 @@ func c15Hinted(r *fw.Rec, e *csEntry, name, text string, class string) bool {
 	// decode hints that would mislead a guesser must not matter when the symbol designates its charset
 	var dh map[gozxing.DecodeHintType]interface{}
 	dh = map[gozxing.DecodeHintType]interface{}{gozxing.DecodeHintType_PURE_BARCODE: true}
+	switch r.Rng.Intn(4) {
+	case 0: // a decode-side hint naming some other registered character set, by name ...
+		o := &csTable[r.Rng.Intn(len(csTable))]
+		names := append([]string{o.Name}, o.Aliases...)
+		dh[gozxing.DecodeHintType_CHARACTER_SET] = names[r.Rng.Intn(len(names))]
+		info["decode_hint"] = dh[gozxing.DecodeHintType_CHARACTER_SET]
+		r.Tally("designated_symbols_read_with_other_decode_hint")
+	case 1: // ... or as a codec value
+		o := &csTable[r.Rng.Intn(len(csTable))]
+		if o.Enc != nil {
+			dh[gozxing.DecodeHintType_CHARACTER_SET] = o.Enc
+			info["decode_hint"] = o.Name + " (encoding.Encoding value)"
+			r.Tally("designated_symbols_read_with_other_decode_hint")
+		}
+	}
 	res, derr := qrcode.NewQRCodeReader().Decode(bmp, dh)
 	if derr != nil {
 		r.Violation("roundtrip", "qr.charset:decode-error:"+class, fmt.Sprintf("reader rejected a %s-hinted symbol: %v", name, derr), info)
@@ -378,6 +393,62 @@ func c15(c *fw.Ctx) {
 				}
 			})
 		}
+	}
+	// legacy double-byte sets: every two-byte code the codec round-trips, 24 per symbol, in byte
+	// mode (a Latin letter in front) and - Shift_JIS - alone, which selects Kanji mode when all
+	// characters lie in the two Kanji blocks
+	for i := range csTable {
+		e := &csTable[i]
+		if e.Kind != 1 {
+			continue
+		}
+		for lead := 0x81; lead <= 0xFE; lead++ {
+			e, lead := e, lead
+			if c.Quick() && e.Name != "Shift_JIS" && lead%4 != 0 {
+				continue
+			}
+			c.Run(fmt.Sprintf("dbcs/%s/%02x", e.Name, lead), func(r *fw.Rec) {
+				var rs []rune
+				for trail := 0x40; trail <= 0xFE; trail++ {
+					u, err := e.Enc.NewDecoder().Bytes([]byte{byte(lead), byte(trail)})
+					if err != nil {
+						continue
+					}
+					rr := []rune(string(u))
+					if len(rr) != 1 || rr[0] == 0xFFFD {
+						continue
+					}
+					if back, ok := e.csEncode(string(rr)); !ok || len(back) != 2 || back[0] != byte(lead) || back[1] != byte(trail) {
+						continue
+					}
+					rs = append(rs, rr[0])
+				}
+				for off := 0; off < len(rs); off += 24 {
+					end := off + 24
+					if end > len(rs) {
+						end = len(rs)
+					}
+					chunk := string(rs[off:end])
+					if !c15Hinted(r, e, e.Name, "k"+chunk, "double-byte-sweep") {
+						return
+					}
+					if e.Name == "Shift_JIS" {
+						if !c15Hinted(r, e, e.Name, chunk, "double-byte-sweep-kanji") {
+							return
+						}
+					}
+					r.TallyN("double_byte_codes_covered_"+e.Name, int64(end-off))
+				}
+				if len(rs) > 0 {
+					r.Nontrivial(fmt.Sprintf("dbcs/%s/%02x", e.Name, lead))
+				}
+			})
+		}
+	}
+	if c.Quick() {
+		c.Exhaustive("every two-byte Shift_JIS code that round-trips through the codec, in byte mode and in Kanji mode")
+	} else {
+		c.Exhaustive("every two-byte code of Shift_JIS, Big5, GB18030 (two-byte area) and EUC-KR that round-trips through the codec; Shift_JIS in byte mode and in Kanji mode")
 	}
 	// not representable -> refused
 	c.Run("refuse", func(r *fw.Rec) {
@@ -638,6 +709,11 @@ func c15(c *fw.Ctx) {
 	c.Floor("decode_hint_honoured_adversarial_payloads", 400)
 	c.Floor("utf8_nohint_kind_7", 100)
 	c.Floor("utf8_nohint_kind_8", 100)
+	c.Floor("double_byte_codes_covered_Shift_JIS", 6000)
+	c.Floor("double_byte_codes_covered_Big5", 3000)
+	c.Floor("double_byte_codes_covered_GB18030", 5000)
+	c.Floor("double_byte_codes_covered_EUC-KR", 1500)
+	c.Floor("designated_symbols_read_with_other_decode_hint", 2000)
 	c.Floor("gb18030_four_byte_texts", 100)
 	c.Floor("single_byte_code_points_covered", 3000)
 }
